@@ -150,5 +150,51 @@ theorem glueTable_static : ∀ e ∈ glueTable, ∃ T, Std.staticTy? e.2.2.1 = s
   rcases he with rfl | rfl | rfl | rfl | rfl | rfl | rfl | rfl | rfl | rfl | rfl | rfl | rfl | rfl <;>
     exact ⟨_, rfl, fun _ _ _ => rfl⟩
 
+
+/-! ### `log`, `pow`: total whatever the math library answers -/
+
+theorem fromCtyFloat_num (v : Num) : (∃ z, StdNum.fromCtyFloat (numVal v) = .ok z) ∨ (∃ c, StdNum.fromCtyFloat (numVal v) = .err c) := by
+  simp only [StdNum.fromCtyFloat, numVal, Gocty.fromNumFloat]
+  split <;> simp
+
+theorem good_log (lib : Num → Num → StdNum.F64) {as : List Value} {rt : Ty} (h : ImplArgsOK nfc (spec2 pNum pNum) as)
+    (ht : staticTf .number as = .ok rt) : ImplGood rt (implOf (StdNum.logImpl lib) as rt) := by
+  cases ht
+  obtain ⟨a, b, rfl, ha, hb⟩ := args_inv2 h
+  obtain ⟨x, rfl⟩ := num_arg' ha rfl rfl rfl rfl
+  obtain ⟨y, rfl⟩ := num_arg' hb rfl rfl rfl rfl
+  simp only [implOf, StdNum.logImpl, StdNum.arg, List.getElem?_cons_zero, List.getElem?_cons_succ, Res.bind_ok]
+  rcases fromCtyFloat_num x with ⟨u, hu⟩ | ⟨c, hc⟩
+  · rcases fromCtyFloat_num y with ⟨v, hv⟩ | ⟨c, hc⟩
+    · simp only [hu, hv, Res.bind_ok]
+      cases lib u v with
+      | nan => exact implGood_err _ _
+      | num r => exact implGood_num r
+    · simp only [hu, hc, Res.bind_ok]; exact implGood_err _ _
+  · rw [hc]; exact implGood_err _ _
+
+theorem good_pow (lib : Num → Num → StdNum.F64) {as : List Value} {rt : Ty} (h : ImplArgsOK nfc (spec2 pNum pNum) as)
+    (ht : staticTf .number as = .ok rt) : ImplGood rt (implOf (StdNum.powImpl lib) as rt) := by
+  cases ht
+  obtain ⟨a, b, rfl, ha, hb⟩ := args_inv2 h
+  obtain ⟨x, rfl⟩ := num_arg' ha rfl rfl rfl rfl
+  obtain ⟨y, rfl⟩ := num_arg' hb rfl rfl rfl rfl
+  simp only [implOf, StdNum.powImpl, StdNum.arg, List.getElem?_cons_zero, List.getElem?_cons_succ, Res.bind_ok]
+  rcases fromCtyFloat_num x with ⟨u, hu⟩ | ⟨c, hc⟩
+  · rcases fromCtyFloat_num y with ⟨v, hv⟩ | ⟨c, hc⟩
+    · simp only [hu, hv, Res.bind_ok]
+      cases lib u v with
+      | nan => exact implGood_err _ _
+      | num r => exact implGood_num r
+    · simp only [hu, hc, Res.bind_ok]; exact implGood_err _ _
+  · rw [hc]; exact implGood_err _ _
+
+theorem callTotal_mathTable : ∀ e ∈ mathTable, ∀ lib : Num → Num → StdNum.F64, CallTotal nfc (e.2.2 lib) := by
+  intro e he lib
+  simp only [mathTable, List.mem_cons, List.not_mem_nil, or_false] at he
+  rcases he with rfl | rfl
+  · exact callTotal_mk rfl fun _ _ => good_log lib
+  · exact callTotal_mk rfl fun _ _ => good_pow lib
+
 end D11b
 end CtyModel
